@@ -42,9 +42,13 @@ def _prio_atom(text):
     r = e.func.value
     if isinstance(r, ast.Attribute) and r.attr == 'ayns':
         r = r.value
-    if len(e.args) != 1:
+    if len(e.args) not in (1, 2):
         return None
     ie = False
+    if len(e.args) == 2:       # has_priority_over(B, c): if_equal handed over by position
+        if not isinstance(e.args[1], ast.Constant) or e.keywords:
+            return None
+        ie = bool(e.args[1].value)
     for k in e.keywords:
         if k.arg == 'if_equal':
             if not isinstance(k.value, ast.Constant):
